@@ -5,8 +5,9 @@ from harness.core import clist, cq, cz, czlist
 
 ID = "C17"
 MODEL_TARGETS = ["C17/Cases.vo"]
-PROOF_TARGETS = ["C17/Gen.vo", "C17/Proofs.vo", "C17/Bridge.vo", "C17/CheckSound.vo"]
-OBLIGATION_FILES = ["C17/Bridge.v"]
+PROOF_TARGETS = ["C17/Gen.vo", "C17/Proofs.vo", "C17/Bridge.vo", "C17/CheckSound.vo", "C17/Sites.vo",
+                 "C17/BridgeSites.vo"]
+OBLIGATION_FILES = ["C17/Bridge.v", "C17/BridgeSites.v"]
 PROPS_FILE = "C17/Props.v"
 SHARD = 40
 PER_CASE_TIMEOUT = 180
@@ -70,8 +71,10 @@ NOT_RUNNABLE = [
 
 
 def translate(repo):
-    from translator import slope_c17
-    return slope_c17.translate(repo)
+    from translator import combine_c17, slope_c17
+    out = dict(slope_c17.translate(repo))
+    out.update(combine_c17.translate(repo))
+    return out
 
 
 # ------------------------------------------------------------------------------------------------
